@@ -128,8 +128,9 @@ def run(chk, ctx) -> None:
     # ones, or the whole hand / nothing when none were named - and not the completed hand
     from .cover import showing_components
     from .helpers import Refile
-    showing_components(Refile(chk, {'C12.show_flags': 'C15.record', 'C12.show_all': 'C15.record'},
-                              only=lambda r, c: c.endswith(':cards') or r == 'C12.show_all'), ctx)
+    from .helpers import foreign
+    foreign(chk, showing_components, Refile(chk, {'C12.show_flags': 'C15.record', 'C12.show_all': 'C15.record'},
+                                            only=lambda r, c: c.endswith(':cards') or r == 'C12.show_all'), ctx)
     chk.floor('C15.record', 17)
     from .cover import records_inert
     records_inert(chk, ctx, 'C15.record')
